@@ -47,7 +47,9 @@ type Engine struct {
 	cellinvs    []*CellInv
 	tables      []*TableDecl
 	lemmas      []*Lemma
-	typeinvs    []*CellInv
+	typeinvs   []*CellInv
+	globalinvs []*CellInv
+	specDefs   []*SpecDef
 	headerCache map[string]string
 	compOwner   map[string]string
 	notCtorOnly map[string]bool
